@@ -164,7 +164,7 @@ def check(ctx: Ctx) -> str:
     ctx.check(rows == {"zero": "None", "negative": "{}", "positive": "LRUCache(size)"}, "create_cache", "environment:create_cache", "size mapping", f"create_cache maps sizes as {rows}", cc.loc(), detail=rows)
     cp = repo.func("environment:copy_cache")
     s = ast.unparse(cp.node)
-    rows_c = {ast.unparse(r.value): astq.guard_atoms(cp.node, r) for r in astq.returns(cp.node) if r.value is not None}
+    rows_c = {ast.unparse(r.value): astq.guard_atoms(cp.nnode, r) for r in astq.returns(cp.nnode) if r.value is not None}  # normal form: conditional expressions expanded, a named test inlined
     ok_cp = set(rows_c) == {"None", "{}", "LRUCache(cache.capacity)"} and ("cache is None", True) in rows_c["None"] and ("type(cache) is dict", True) in rows_c["{}"] and ("cache is None", False) in rows_c["{}"] \
         and ("type(cache) is dict", False) in rows_c["LRUCache(cache.capacity)"] and ("cache is None", False) in rows_c["LRUCache(cache.capacity)"]
     ctx.check(ok_cp, "copy_cache", "environment:copy_cache", "mirror", "copy_cache must return None / {} / LRUCache(cache.capacity)", cp.loc())
